@@ -198,6 +198,11 @@ func (l *lexer) scanString(quote rune) (n int) {
 	ch := l.next() // read character after quote
 	for ch != quote {
 		if ch == '\n' || ch == eof {
+			if ch == '\n' {
+				// Report the end of the line the literal is on, not
+				// the start of the next one.
+				l.backup()
+			}
 			l.error("literal not terminated")
 			return
 		}
